@@ -350,8 +350,6 @@ def shapes(ctx):
     res.saw(f)
     s = Code(P, f)
     checks = [
-        ('amplitude = self.data[0][k][1] / np.mean(self.data[0][k][1])' in s,
-         'amplitude = intensity / mean intensity'),
         ('P[R <= 1] = amplitude * np.exp(1j * 2 * np.pi * self.data[0][k][0])'
          in s, 'pupil = amplitude exp(i 2 pi W) inside the unit disk'),
         ('R = np.sqrt(x ** 2 + y ** 2)' in s and
@@ -538,4 +536,91 @@ def no_stale(ctx):
                        'the PSF / MTF contains data of an earlier evaluation', min_methods=1)
 
 
-RULES = [no_stale, dft_sampling, working_fno, def_assign, shapes, geometric]
+def psf_norm(ctx):
+    """Strehl <= 1 and 'unaberrated pupil peaks at 100' as a counting
+    argument.  peak = |sum_j P_j|^2 <= (sum_j |P_j|)^2 and the reference peak
+    is N^2 with N the number of non-zero pupil samples (P_nom[P_nom != 0] = 1).
+    With |P_j| = I_j / m the bound sum_j |P_j| = N holds exactly when m is the
+    mean of the intensities over the non-zero samples; a mean over all samples
+    (blocked ones included) gives sum = M > N and Strehl (M/N)^2 > 1."""
+    from ..match import find, find_seq
+    P = ctx.P
+    res = Result('PSF-NORM', 'pupil amplitude = intensity / mean intensity '
+                 'over the transmitting (non-zero) samples; reference pupil '
+                 '= 1 on the non-zero samples; PSF = |FFT|^2 / reference peak '
+                 'x 100; Strehl = central value / 100')
+    g = P.func('FFTPSF._generate_pupils')
+    nrm = P.func('FFTPSF._get_normalization')
+    cp = P.func('FFTPSF._compute_psf')
+    sr = P.func('FFTPSF.strehl_ratio')
+    for f in (g, nrm, cp, sr):
+        res.saw(f)
+    ok = False
+    for pat in ('$a = $I / np.mean($I[$I > 0])', '$a = $I / np.mean($I[$I != 0])',
+                '$a = $I / $I[$I > 0].mean()', '$a = $I / $I[$I != 0].mean()',
+                '$a = $I / (np.sum($I) / np.count_nonzero($I))',
+                '$a = $I * np.count_nonzero($I) / np.sum($I)'):
+        for b in find_seq(g, [pat, '$P[R <= 1] = $a * np.exp($phase)']):
+            ok = True
+    whole = find_seq(g, ['$a = $I / np.mean($I)',
+                         '$P[R <= 1] = $a * np.exp($phase)'])
+    if ok:
+        res.ok('amplitude normalised by the mean over the non-zero samples: '
+               'sum |P| = N, Strehl <= 1')
+    elif whole:
+        res.fail(ctx.finding(
+            'PSF-NORM', g, whole[0]['a'],
+            'the pupil amplitude is intensity / mean(intensity) with the '
+            'mean taken over all samples: when M samples are traced and only '
+            'N < M transmit (obscuration, clipping) the amplitudes sum to M '
+            'while the reference peak is N^2, so the unaberrated peak is '
+            '100 (M/N)^2 and the Strehl ratio exceeds 1',
+            construct='amplitude mean over all samples'))
+    else:
+        res.fail(ctx.finding('PSF-NORM', g, g.node,
+                             'pupil amplitude normalisation not recognised',
+                             construct='amplitude normalisation'))
+    if find_seq(g, ['$I = self.data[0][k][1]']) or \
+            find(g, 'self.data[0][k][1] / $m'):
+        res.ok('amplitude from the intensity of the traced pupil samples')
+    else:
+        res.fail(ctx.finding('PSF-NORM', g, g.node,
+                             'amplitude is not the traced intensity',
+                             construct='amplitude source'))
+    if find(g, 'np.exp(1j * 2 * np.pi * self.data[0][k][0])'):
+        res.ok('phase = 2 pi OPD[waves]')
+    else:
+        res.fail(ctx.finding('PSF-NORM', g, g.node,
+                             'pupil phase is not exp(i 2 pi W)',
+                             construct='pupil phase'))
+    if find_seq(nrm, ['$n = self.pupils[0].copy()', '$n[$n != 0] = 1',
+                      '$A = np.fft.fftshift(np.fft.fft2($n))',
+                      '$p = $A * np.conj($A)',
+                      'return np.real(np.max($p) * len(self.pupils))']):
+        res.ok('reference peak = max |FFT(1 on the non-zero samples)|^2 x '
+               'number of wavelengths')
+    else:
+        res.fail(ctx.finding('PSF-NORM', nrm, nrm.node,
+                             'reference peak is not that of the unaberrated '
+                             'pupil on the same support',
+                             construct='reference peak'))
+    if find_seq(cp, ['$nf = self._get_normalization()',
+                     '$amp = np.fft.fftshift(np.fft.fft2($pupil))',
+                     '$l.append($amp * np.conj($amp))',
+                     'return np.real(np.sum($l, axis=0)) / $nf * 100']):
+        res.ok('PSF = sum |FFT pupil|^2 / reference peak x 100')
+    else:
+        res.fail(ctx.finding('PSF-NORM', cp, cp.node,
+                             'PSF is not |FFT|^2 scaled by the reference '
+                             'peak to 100', construct='PSF scaling'))
+    if find(sr, 'return self.psf[self.grid_size // 2, self.grid_size // 2] '
+                '/ 100'):
+        res.ok('Strehl = central pixel / 100')
+    else:
+        res.fail(ctx.finding('PSF-NORM', sr, sr.node,
+                             'Strehl ratio is not the central PSF value / 100',
+                             construct='strehl'))
+    return res
+
+
+RULES = [no_stale, psf_norm, dft_sampling, working_fno, def_assign, shapes, geometric]
